@@ -55,6 +55,7 @@ var sharedOption core.Option
 type errObs struct {
 	Msg   string      `json:"msg"`
 	Full  string      `json:"full"`
+	Full2 string      `json:"full2"` // Error() asked once more after everything else was read
 	File  string      `json:"file"`
 	Index uint        `json:"index"`
 	Line  uint        `json:"line"`
@@ -280,6 +281,7 @@ func observeErr(je *jerr.JApiError, base string, c *runCase) *errObs {
 	if strings.Contains(e.Msg, "runtime error") && content != nil && int(e.Index) <= len(content) {
 		e.DepFault = depFault(content, int(e.Index), e.Msg)
 	}
+	e.Full2 = je.Error()
 	return e
 }
 
